@@ -1,6 +1,8 @@
 mod alias;
 mod ctor;
 mod fl;
+mod obj;
+mod reg;
 mod rng;
 mod tree;
 mod tw;
@@ -18,6 +20,7 @@ fn main() {
         "alias-drive" => alias::drive(rest),
         "ctor-replay" => ctor::replay(rest),
         "ctor-fuzz" => ctor::fuzz(rest),
+        "obj-replay" => obj::replay(rest),
         "tree-drive-floats" => tree::drive_floats(rest),
         _ => { eprintln!("unknown subcommand {:?}", cmd); 2 }
     };
